@@ -3,6 +3,7 @@
 -/
 import Driver.Common
 import Model.Base64
+import Model.Time
 import Model.CastGen
 import Model.Template
 import Model.LineSpec
@@ -388,6 +389,21 @@ def runAccept (tiS lineS extS implS goS : String) : Result :=
       ⟨"D", s!"recogniser disagrees with encoding/json on {lineS}: model {recognised} go {goValid}"⟩
     else if implPanic then ⟨"P", s!"accept {lineS}: panic violates C16: key=panic"⟩
     else
+      -- "whose declared columns convert", judged without the cast tables where the hand-written calendar suffices:
+      -- a text under a date column that is neither a day the calendar has nor an integer does not convert
+      let badDate : Bool := implOk && recognised &&
+        (match colsOf tiS with
+         | some cols =>
+           let inMs := LineSpec.normDup (Json.unmarshal line).1
+           cols.any fun c =>
+             match c with
+             | .leaf n .date _ =>
+               (match LineSpec.lookupJV inMs n with
+                | some (.str s) => !(Time.parseDateOk s) && (IntText.parseInt0 s 64).isNone
+                | _ => false)
+             | _ => false
+         | none => false)
+      if badDate then ⟨"P", s!"accept ti=[{tiS}] {lineS}: impl [{implS}] violates C16: key=accepted-unconvertible-date"⟩ else
       match mOk with
       | none => ⟨"X", "model abstains"⟩
       | some mo =>
